@@ -462,6 +462,7 @@ def run(ctx):
     check_pins(ctx)
     w = World(ctx)
     try:
+        regressions(ctx, w)
         unit_suites(ctx, w)
         decryptor_suite(ctx, w)
         sessionkey_length_suite(ctx, w)
@@ -891,6 +892,33 @@ def sessionkey_length_suite(ctx, w):
                 ctx.fail('sessionkey-length', 'independent decryptor disagrees on a passphrase message with an unusual session key length', dict(case, blob=raw.hex(), model=mo[:80]))
 
 
+def regressions(ctx, w):
+    """witnesses of the two repaired C03 defects (known_findings.json kind=fixed), re-run on every check"""
+    pgpy = w.pgpy
+    with warnings.catch_warnings():
+        warnings.simplefilter('ignore')
+        m = pgpy.PGPMessage.new(b'regression', compression=w.Z.Uncompressed)
+    want = canon_plain(m)
+    # C03/mixed-recipients-attributeerror: passphrase recipient in front of a key recipient, both orders of the API calls
+    for recips in ([('P', 'pw', 8, 16), ('K', 'ed25519')], [('K', 'rsa2048'), ('P', 'pw', 8, 16)]):
+        if not all(r[0] == 'P' or r[1] in w.keys for r in recips):
+            continue
+        e = w.impl_encrypt(m, recips, 9, bytes(range(32)))
+        raw = bytes(e.__bytes__())
+        for r in recips:
+            ctx.case('regression', ('mixed', tuple(recips), r))
+            o = w.impl_decrypt(raw, r)
+            if o != ('ok', want):
+                ctx.fail('regression', 'C03/mixed-recipients-attributeerror is back: a recipient of a mixed passphrase+key message cannot decrypt',
+                         {'op': 'roundtrip', 'blob': raw.hex(), 'recipient': list(r), 'want': want, 'impl': repr(o)[:200]})
+    # C03/sessionkey-length-unchecked: 16-octet key under AES-256 to a key recipient
+    for kn in [k for k in ('rsa2048', 'ed25519') if k in w.keys]:
+        ctx.case('regression', ('sklen', kn))
+        o = outcome(w.impl_encrypt, m, [('K', kn)], 9, bytes(16))
+        if o[0] != 'raise':
+            ctx.fail('regression', 'C03/sessionkey-length-unchecked is back: a 16-octet session key is accepted for AES-256', {'op': 'sklen', 'alg': 9, 'n': 16, 'key': kn})
+
+
 def model_recipient(w, r, salt=None):
     if r[0] == 'P':
         return ','.join(['P', hx(r[1].encode('utf-8')), hn(r[4] if len(r) > 4 else 3), hn(r[2]), hx(salt), hn(r[3])])
@@ -1029,8 +1057,20 @@ def replay(ctx, case):
         if op == 'pkesk_m':
             a, key = case['alg'], bytes.fromhex(case['key'])
             stub = _StubRSA(); p = PKESessionKeyV3(); p.pkalg = 1
-            p.encrypt_sk(stub, S(a), key)
+            o = outcome(p.encrypt_sk, stub, S(a), key)
+            if len(key) != KEYLEN[a]:
+                return o != ('raise', 'PGPEncryptionError')
             return stub.seen != bytes([a]) + key + (sum(key) % 65536).to_bytes(2, 'big')
+        if op == 'sklen':
+            with warnings.catch_warnings():
+                warnings.simplefilter('ignore')
+                m = w.pgpy.PGPMessage.new(b'session key length', compression=w.Z.Uncompressed)
+            sk = bytes(case['n'])
+            if case['key'] == 'passphrase':
+                r = ('P', 'pw', 8, 16)
+                o = outcome(w.impl_encrypt, m, [r], case['alg'], sk)
+                return o[0] == 'ok' and w.impl_decrypt(bytes(o[1].__bytes__()), r) != ('ok', canon_plain(m))
+            return outcome(w.impl_encrypt, m, [('K', case['key'])], case['alg'], sk)[0] != 'raise'
         if op == 'pkesk_open':
             m = bytes.fromhex(case['m'])
             stub = _StubRSA(m); p = PKESessionKeyV3(); p.pkalg = 1; p.ct.me_mod_n = MPI(12345)
